@@ -43,7 +43,62 @@ SCRIPTS = [
 ]
 
 
+def _api_mixed_array():
+    import numpy as np
+    import sympy
+    from blackbird import BlackbirdProgram
+    a, b = sympy.Symbol("a"), sympy.Symbol("beta")
+    p = BlackbirdProgram(name="api1", version="1.0")
+    p._parameters.extend([a, b])
+    arr = np.array([[a, 0.5], [1 + 2j, -0.5]], dtype=object)
+    arr2 = np.array([[2, b, 1.5], [a * 2, 3, 4]], dtype=object)
+    p._operations.append({"op": "G", "args": [arr, a - 2 * b], "kwargs": {"k": arr2, "lst": [a * b, b / a, 1, 0.5, 2j]}, "modes": [0, 1]})
+    p._operations.append({"op": "H", "args": [np.array([[b, 1j], [2, a]], dtype=object)], "kwargs": {}, "modes": [2]})
+    return p
+
+
+def _api_options():
+    import sympy
+    from blackbird import BlackbirdProgram
+    x, y, z = sympy.symbols("x y zeta")
+    p = BlackbirdProgram(name="api2", version="1.0")
+    p._parameters.extend([z, y, x])
+    p._target["name"] = "X8"
+    p._target["options"] = {"shots": 10, "vals": [1, 2.5, True, "s"], "tag": "abc"}
+    p._type["name"] = "tdm"
+    p._type["options"] = {"copies": 3, "temporal_modes": 2}
+    p._operations.append({"op": "Dgate", "args": [x * y - z, z / x], "kwargs": {"phi": y - x * z}, "modes": [0]})
+    return p
+
+
+# programs assembled through the API (their serialisation must not depend on the hash seed either)
+API = {"api_mixed_object_arrays": _api_mixed_array, "api_options_and_expressions": _api_options}
+SCRIPTS += [("api", n) for n in API]
+
+
+def observe(bb, spec, text):
+    """what is compared between iteration orders / hash seeds"""
+    if isinstance(SCRIPTS[spec], tuple):
+        p = API[SCRIPTS[spec][1]]()
+        try:
+            return (None, bb.dumps(p), None)
+        except engine.Abort:
+            raise
+        except Exception as e:  # noqa
+            return (None, "dumps raises %s" % type(e).__name__, None)
+    p = bb.loads(text)
+    t = bb.dumps(p)
+    names = sorted(p.parameters)
+    inst_text = None
+    if names:
+        inst = p(**{n: 0.5 + 0.25 * k for k, n in enumerate(names)})
+        inst_text = bb.dumps(inst)
+    return (normalise(_snap.program(p)), t, inst_text)
+
+
 def gen(spec, lv):
+    if isinstance(SCRIPTS[spec], tuple):
+        return {"text": "(program assembled through the API: %s)" % SCRIPTS[spec][1], "pre": []}
     modes = []
     sub = c11.Sub(lv, modes)
     lines = [l % sub if "%(" in l else l for l in SCRIPTS[spec]]
@@ -79,14 +134,7 @@ def run_spec(spec):
     order.SITES.clear()
 
     def run():
-        p = bb.loads(text)
-        t = bb.dumps(p)
-        names = sorted(p.parameters)
-        inst_text = None
-        if names:
-            inst = p(**{n: 0.5 + 0.25 * k for k, n in enumerate(names)})
-            inst_text = bb.dumps(inst)
-        return (normalise(_snap.program(p)), t, inst_text)
+        return observe(bb, spec, text)
 
     try:
         with U.coverage(out["funcs"]):
@@ -115,7 +163,8 @@ def run_spec(spec):
             if (type(pth.value), str(pth.value)) != (type(ref.value), str(ref.value)):
                 diffs.append(("exception differs between iteration orders", True))
         else:
-            diffs += _snap.diff(ref.value[0], pth.value[0], "content")
+            if ref.value[0] is not None:
+                diffs += _snap.diff(ref.value[0], pth.value[0], "content")
             if ref.value[1] != pth.value[1]:
                 diffs.append(("dumps() text differs between iteration orders:\n%s\n--- vs ---\n%s" % (ref.value[1], pth.value[1]), True))
             if ref.value[2] != pth.value[2]:
@@ -154,11 +203,8 @@ import blackbird
 from bbverif.checks import _snap, c19
 text = %(text)r
 try:
-    p = blackbird.loads(text)
-    t = blackbird.dumps(p)
-    names = sorted(p.parameters)
-    it = blackbird.dumps(p(**{n: 0.5 + 0.25 * k for k, n in enumerate(names)})) if names else None
-    s = repr(c19.normalise(_snap.program(p))) + "\n" + t + "\n" + repr(it)
+    snap, t, it = c19.observe(blackbird, %(spec)r, text)
+    s = repr(snap) + "\n" + t + "\n" + repr(it)
 except Exception as e:
     s = "EXC %%s %%s" %% (type(e).__name__, e)
 print(hashlib.sha256(s.encode()).hexdigest()); print(s[-600:])
@@ -168,7 +214,7 @@ print(hashlib.sha256(s.encode()).hexdigest()); print(s[-600:])
 def seed_sweep(spec, vals, seeds):
     lv = skel.Leaves(values=vals)
     text = gen(spec, lv)["text"]
-    src = DIGEST % {"root": common.ROOT, "text": text}
+    src = DIGEST % {"root": common.ROOT, "text": text, "spec": spec}
     seen = {}
     for sd in seeds:
         env = dict(os.environ, PYTHONHASHSEED=str(sd), PYTHONDONTWRITEBYTECODE="1")
